@@ -5,10 +5,12 @@ import (
 	"fmt"
 	"go/constant"
 	"log"
+	"math"
 	"math/bits"
 	"os"
 	"path"
 	"reflect"
+	"strconv"
 
 	gen "github.com/traefik/yaegi/stdlib/generic"
 )
@@ -257,5 +259,17 @@ func fixStdlib(interp *Interpreter) {
 	if p = interp.binPkg["math/bits"]; p != nil {
 		// Do not trust extracted value maybe from another arch.
 		p["UintSize"] = reflect.ValueOf(constant.MakeInt64(bits.UintSize))
+	}
+
+	if p = interp.binPkg["math"]; p != nil {
+		// Do not trust extracted values maybe from another arch.
+		p["MaxInt"] = reflect.ValueOf(constant.MakeInt64(math.MaxInt))
+		p["MinInt"] = reflect.ValueOf(constant.MakeInt64(math.MinInt))
+		p["MaxUint"] = reflect.ValueOf(constant.MakeUint64(math.MaxUint))
+	}
+
+	if p = interp.binPkg["strconv"]; p != nil {
+		// Do not trust extracted value maybe from another arch.
+		p["IntSize"] = reflect.ValueOf(constant.MakeInt64(strconv.IntSize))
 	}
 }
